@@ -35,7 +35,9 @@ def run(ctx):
     litread.check(ctx, prog, 'C07', ('Xml.cpp',))
     litread.selftest(ctx)
     import C08
-    n = C08.check_fixed_buffers(ctx, prog, 'C07.outbuf', only_file='Xml.cpp')
+    # (the encoder's body lives in String.cpp: its longest output per code is read off by interpreting it)
+    sprog = prog if any(g.get('pq') == 'asl::utf32toUtf8' and g.get('body') for g in prog.functions) else ir.load_units([os.path.join(ir.REPO, 'src', 'String.cpp')])
+    n = C08.check_fixed_buffers(ctx, prog, 'C07.outbuf', only_file='Xml.cpp', enc_prog=sprog)
     ctx.floor('C07.outbuf', n, 1)
     return __doc__.split('\n\n', 1)[1]
 
@@ -168,6 +170,8 @@ XML_DOCS = [
     # (document, expected structure: 'o' element opened, 't' text node appended to the open element, 'c' element closed)
     (b'<a>x</a>', 'otc'), (b'<a>&amp;</a>', 'otc'), (b'<a>&#65;&lt;</a>', 'otc'), (b'<a>x&gt;y</a>', 'otc'), (b'<a><b/>t</a>', 'ooctc'),
     (b'<a> <b>u</b> </a>', 'ootcc'), (b'<a k="v">w<c d=\'e\'/></a>', 'otocc'), (b'<a><b>&quot;</b><b>z</b></a>', 'ootcotcc'), (b'<r>\xc3\xa9&#233;</r>', 'otc'),
+    # text without any ASCII character (bytes >= 0x80 only, alone and next to blanks): a text node like any other
+    (b'<g>\xce\xa0\xcf\x81\xce\xb9\xce\xbd</g>', 'otc'), (b'<a><b/> \xe2\x82\xac <b/></a>', 'ooctocc'), (b'<a>\xff</a>', 'otc'),
 ]
 
 
@@ -215,6 +219,8 @@ def check_docs(ctx, prog, f, m, S):
                     elif ev[0] == 'text':
                         sq += 't'
                 seqs.add(sq)
+            if os.environ.get('ASL_DEBUG_DOCS'):
+                print('DOC', doc, want, sorted(seqs))
             if want not in seqs:
                 bad = (doc, want, sorted(seqs))
                 break
